@@ -336,6 +336,11 @@ def evaluate(ctx, spec, live, rng, tag=None):
     for a, b in pairs:
         guard(T.lca, a.ref, b.ref)
     guard(T.levels, live)
+    # ... and of a constituent inside the tree: only what is below it counts
+    inner = [n for n in nodes if n.children and n.ref is not live]
+    for n in (inner if len(inner) <= 3 else rng.sample(inner, 3)):
+        guard(T.levels, n.ref)
+        ctx.stratum('levels of an inner constituent')
     guard(R.treeoutput.compute_export_numbering, live)
     ncons = len([n for n in nodes if n.children])
     ntok = len(m.toks())
